@@ -24,6 +24,11 @@ structure NSt where
   now : Int := 0
   sigLog : List (Bytes × Bytes × Bytes) := []
   sealLog : List (Bytes × Body) := []
+  /-- address-filtering NAT of the mock socket (part of the simulated network, not of vpncloud): nodes behind a NAT and, per such node,
+      the addresses it has sent to with the time until which answers are let through -/
+  natNodes : List Nat := []
+  natSeen : List (Nat × NAddr × Int) := []
+  args : List (Nat × List String) := []
 
 def NSt.env (st : NSt) : CryptoEnv :=
   { keyHash := fun pk salt => (Sha256.sha256 (pk ++ salt)).take 4,
@@ -143,6 +148,9 @@ def finishStep (st : NSt) (port : Nat) (c : Ctx) (views : List (NAddr × SessVie
         { s with sigLog := (n.cfg.key, body.take pos, sig) :: s.sigLog }
       | .error _ => s
     | _ => s) { st with sealLog := c.log ++ st.sealLog }
+  let st1 := if st1.natNodes.contains port then
+      { st1 with natSeen := (st1.natSeen.filter (fun (p, a, _) => !(p = port && sorted.any (fun x => x.1 = a)))) ++ sorted.map (fun (d, _) => (port, d, st1.now + 300)) }
+    else st1
   let st2 := setNode { st1 with queue := st1.queue ++ newq, wire := st1.wire ++ newq } port n
   (st2, s!"{prefixStr}out=[{outStr}] dev=[{devStr}] | {nodeState n}")
 
@@ -159,6 +167,7 @@ def deliverTo (st : NSt) (src dst : NAddr) (data : Bytes) (implObs : String) : N
     match getNode st port with
     | none => (st, "lost")
     | some n =>
+      if st.natNodes.contains port && !(st.natSeen.any (fun (p, a, tmax) => p = port && a = src && tmax ≥ st.now)) then (st, "filtered") else
       let (ires, istate) := splitObs implObs
       let outs := parseOuts ires
       let views := parseSessions istate
@@ -169,10 +178,7 @@ def deliverTo (st : NSt) (src dst : NAddr) (data : Bytes) (implObs : String) : N
       finishStep st port c views ""
   | _ => (st, "lost")
 
-def nodeStep (st : NSt) (t : List String) (implObs : String) : Option (NSt × String × String) :=
-  match t with
-  | "nkeys" :: _ => some ({ keys := (implObs.splitOn ",").filterMap Bytes.ofHex }, implObs, "-")
-  | "nnode" :: port :: fs =>
+def nodeStepNew (st : NSt) (port : String) (fs : List String) (implObs : String) : Option (NSt × String × String) :=
     match port.toNat?, (kvField fs "key").bind String.toNat?, kvField fs "trust", (kvField fs "algos").bind parseAlgos,
           (kvField fs "pt").bind String.toNat?, kvField fs "ka", (kvField fs "st").bind String.toNat?, (kvField fs "claims").bind parseRanges,
           (field implObs "id").bind Bytes.ofHex with
@@ -188,8 +194,59 @@ def nodeStep (st : NSt) (t : List String) (implObs : String) : Option (NSt × St
                              claims, key := st.keys.getD ki [], trusted, algos }
       let n : Node := { nodeId, addr := portAddr port, cfg, own := [portAddr port],
                         table := { cacheTimeout := swt, claimTimeout := pt }, nextPeers := st.now, nextOwnReset := st.now + 300 }
-      some (setNode st port n, nodeState n, "-")
+      let st' := if kvField fs "nat" = some "1" && !st.natNodes.contains port then { st with natNodes := st.natNodes ++ [port] } else st
+      let st' := { st' with args := (st'.args.filter (·.1 ≠ port)) ++ [(port, fs)], natSeen := st'.natSeen.filter (fun (p, _, _) => p ≠ port) }
+      some (setNode st' port n, nodeState n, "-")
     | _, _, _, _, _, _, _, _, _ => some (st, "bad-op", "-")
+
+def nodeStepReplay (st : NSt) (args : List String) (implObs : String) : Option (NSt × String × String) :=
+  match args with
+  | k :: muts =>
+    match (k.drop 1).toString.toNat?, (muts.head?).bind String.toNat?, muts[1]? with
+    | some w, some port, some src =>
+      match st.wire[w]? with
+      | none => some (st, "none-on-wire", "-")
+      | some (osrc, _, data) =>
+        match (if src = "orig" then some osrc else parseNAddr src), (muts.drop 2).foldlM mutateBytes data with
+        | some s, some d => let (s', obs) := deliverTo st s (portAddr port) d implObs; some (s', obs, "-")
+        | _, _ => some (st, "bad-op", "-")
+    | _, _, _ => some (st, "bad-op", "-")
+  | [] => some (st, "bad-op", "-")
+
+def nodeStep (st : NSt) (t : List String) (implObs : String) : Option (NSt × String × String) :=
+  match t with
+  | "nkeys" :: _ => some ({ keys := (implObs.splitOn ",").filterMap Bytes.ofHex }, implObs, "-")
+  | "nnode" :: port :: fs => nodeStepNew st port fs implObs
+  | ["nfake", i, a, pt] =>
+    match i.toNat?, parseNAddr a, pt.toNat? with
+    | some port, some a, some pt =>
+      match getNode st port with
+      | some n =>
+        let p : Peer := { addrs := [a], timeout := st.now + 100000, peerTimeout := pt, nodeId := List.replicate 16 9,
+                          crypto := { init := none, unencrypted := true } }
+        some (setNode st port { n with peers := insertA n.peers a p }, "ok", "-")
+      | none => some (st, "bad-op", "-")
+    | _, _, _ => some (st, "bad-op", "-")
+  | ["nfake-clear", i] =>
+    match i.toNat?.bind (fun p => (getNode st p).map (fun n => (p, n))) with
+    | some (port, n) => some (setNode st port { n with peers := n.peers.filter (fun (_, p) => p.nodeId ≠ List.replicate 16 9) }, "ok", "-")
+    | none => some (st, "bad-op", "-")
+  | ["ndropfrom", i] =>
+    match i.toNat? with
+    | some port => some ({ st with queue := st.queue.filter (fun (s, _, _) => s ≠ portAddr port) }, "ok", "-")
+    | none => some (st, "bad-op", "-")
+  | ["ndropfrom", i, j] =>
+    match i.toNat?, j.toNat? with
+    | some a, some b => some ({ st with queue := st.queue.filter (fun (s, d, _) => !(s = portAddr a && d = portAddr b)) }, "ok", "-")
+    | _, _ => some (st, "bad-op", "-")
+  | "nreplay-last" :: rest =>
+    if st.wire.isEmpty then some (st, "none-on-wire", "-")
+    else nodeStepReplay st (s!"w{st.wire.length - 1}" :: rest) implObs
+  | "nexpect" :: _ => some (st, "ok", "-")
+  | ["nrestart", port] =>
+    match port.toNat?.bind (fun p => (st.args.find? (·.1 = p)).map (·.2)) with
+    | some fs => nodeStepNew st port fs implObs
+    | none => some (st, "bad-op", "-")
   | ["ntime", tm] =>
     match tm.toInt? with
     | some v => some ({ st with now := v }, "ok", "-")
